@@ -46,6 +46,7 @@ type Engine struct {
 
 	Warnings []string
 	RepoDir  string
+	OverlayFiles map[string]string // source overlays (self-test mutants) also applied to replays
 }
 
 type LemmaRef struct {
